@@ -219,9 +219,69 @@ BELOW_CASES = [
 ]
 
 
+# The five elements whose number of results depends on the data (their templates do `stack += <list of results>`): the documented
+# count per overload (elements.yaml): ÷ "push each digit / character / item"; y "a[::2], a[1::2]"; ₅ "num: a % 5 == 0", "any: a, len(a)";
+# Ḋ "num-num: a % b == 0", "num-str: a copies of b", "str-num: b copies of a", "str-str: b + ' ' + a".
+COUNT_VALUES = [3, 0, 12, "ab", "a", "", "12", [1, 2, 3], [], [4]]
+
+
+def documented_count(key, args):
+    kinds = ["num" if isinstance(a, int) else "str" if isinstance(a, str) else "lst" for a in args]
+    a = args[0]
+    if key == "÷":
+        return len(str(a)) if kinds[0] == "num" else len(a)
+    if key == "y":
+        return 2 if kinds[0] != "num" else None
+    if key == "₅":
+        return 1 if kinds[0] == "num" else 2
+    if key == "Ḋ":
+        b = args[1]
+        if kinds == ["num", "num"]:
+            return 1 if b != 0 else None
+        if kinds == ["num", "str"]:
+            return a
+        if kinds == ["str", "num"]:
+            return b
+        if kinds == ["str", "str"]:
+            return 1
+    return None
+
+
+def _count_shard(keys):
+    import itertools
+
+    part = explore.Partial()
+    for key in keys:
+        ar = 2 if key == "Ḋ" else 1
+        for args in itertools.product(COUNT_VALUES, repeat=ar):
+            want = documented_count(key, list(args))
+            if want is None:
+                continue
+            prefix = [[7, [8]], "S", 7]
+            fresh = [list(a) if isinstance(a, list) else a for a in args]
+            stack, exc, _ = sandbox.apply_element(key, prefix + fresh, timeout=5.0)
+            part.count()
+            if exc is not None:
+                part.skip("call raises (out of domain)")
+                continue
+            part.nontriv()
+            got = len(stack) - len(prefix)
+            part.outcome((key, want))
+            ok = got == want and sandbox.pyval(stack[:3]) == [[7, [8]], "S", 7]
+            if ok and key == "Ḋ" and isinstance(args[0], str) and isinstance(args[1], str):
+                ok = stack[-1] == args[1] + " " + args[0]
+            if not ok:
+                part.violation("element", {"element": key, "args": [repr(a) for a in args]},
+                               "the top k entries are not replaced by the documented number of results",
+                               {"element": key, "arg_kinds": ",".join(type(a).__name__ for a in args)}, want,
+                               [got, [repr(x)[:30] for x in stack[3:][:8]]], size=len(repr(args)))
+    return part.data()
+
+
 def run(tier, seed):
     rep = Report(PROP, tier, seed, "exploration")
     explore.pmap(_below_is_result_shard, [[c] for c in BELOW_CASES], rep, seed)
+    explore.pmap(_count_shard, [["÷"], ["y"], ["₅"], ["Ḋ"]], rep, seed)
     explore.pmap(_elem_shard, S.shards(tier, 96), rep, seed)
     tab = S.table()
     keys = [k for k in tab if k not in S.EXIT]
@@ -233,7 +293,7 @@ def run(tier, seed):
     dom = S.V_FULL if tier == "thorough" else S.V_QUICK
     rep.rule = ("every key of the element table (%d) with its table arity k on prefix [[7,[8]],'S',7] + every argument tuple over "
                 "%d values (k<=2) / %d values (k=3): %s; every modifier applied to every element (%d programs) on all tuples over "
-                "%s. Non-trivial = the call returned normally (raising calls are out of domain); distinct = (element, tuple)."
+                "%s; the documented NUMBER of results of the four data-dependent elements (÷ y ₅ Ḋ) over 10 values. Non-trivial = the call returned normally (raising calls are out of domain); distinct = (element, tuple)."
                 % (len(tab), len(dom), len(S.V_TRIAD), [S.spec_name(s) for s in dom], len(progs),
                    [S.spec_name(s) for s in S.V_MOD]))
     rep.sample({"element": "+", "stack": "prefix + [3, 'ab']"})
